@@ -37,6 +37,7 @@ type FuncSpec struct {
 	Assigns   []*Clause // nil => not declared
 	HasAssign bool
 	Preserves []*Clause // locations the function never modifies (negative frame; used when no assigns is declared)
+	Guards    []*GuardClause // control-flow contracts decided on the CFG (frames back end)
 	Trusted   bool
 	MayPanic  bool
 	NoInline  bool
@@ -97,6 +98,20 @@ type Lemma struct {
 	Line int
 }
 
+// GuardClause: "guard <effect> by <g1> && <g2> ...": every path from the
+// function's entry to an instruction matching <effect> (an anchor as in
+// `assert at`) takes, for each gi, the edge on which gi holds. Guards:
+// [!]field:<Name> (a bool field read), [!]call:<name> (a bool-returning call),
+// [!]var:<name> (a bool parameter or variable), nilerr:<name> (the error
+// result of a call to <name> was nil).
+type GuardClause struct {
+	Effect string
+	Guards []string
+	Text   string
+	File   string
+	Line   int
+}
+
 type SpecFile struct {
 	Lemmas map[string]*Lemma
 	Funcs  map[string]*FuncSpec
@@ -110,7 +125,7 @@ func NewSpecFile() *SpecFile {
 }
 
 var clauseKeywords = map[string]bool{"requires": true, "ensures": true, "invariant": true, "decreases": true,
-	"assigns": true, "preserves": true, "loop": true, "may_panic": true, "trusted": true, "pure": true, "abstract": true, "axiom": true,
+	"assigns": true, "preserves": true, "guard": true, "loop": true, "may_panic": true, "trusted": true, "pure": true, "abstract": true, "axiom": true,
 	"func": true, "lemma": true, "noinline": true, "opaque": true, "flag": true, "let": true, "may_panic_at": true, "extends": true, "foreach_field": true, "ghost": true, "assert": true}
 
 // ParseSpecFile reads //@ lines from path and adds them to sf.
@@ -316,6 +331,17 @@ func (sf *SpecFile) ParseSpecFile(path string) error {
 					cur.Assigns = append(cur.Assigns, cs...)
 					cur.HasAssign = true
 				}
+			case "guard":
+				eff, gs, ok := strings.Cut(strings.TrimSpace(r.text), " by ")
+				if !ok {
+					return fmt.Errorf("%s: expected 'guard <effect> by <guard> && ...'", loc)
+				}
+				gc := &GuardClause{Effect: strings.TrimSpace(eff), Text: r.text, File: path, Line: r.line}
+				for _, g := range strings.Split(gs, "&&") {
+					gc.Guards = append(gc.Guards, strings.TrimSpace(g))
+				}
+				curLoop = nil
+				cur.Guards = append(cur.Guards, gc)
 			case "preserves":
 				for _, part := range splitTop(strings.TrimSpace(r.text), ',') {
 					e, err := ParseSpecExpr(part)
